@@ -56,7 +56,7 @@ func (in *Interp) hashApply(algo string, input []*Term) []*Term {
 			out = append(out, ts.BV(8, uint64(x)))
 		}
 	} else {
-		in.P.noteModelName("hash functions = uninterpreted injective functions (equal inputs <=> equal digests)")
+		in.noteModelName("hash functions = uninterpreted injective functions (equal inputs <=> equal digests)")
 		for i := 0; i < a.size; i++ {
 			out = append(out, in.fresh(fmt.Sprintf("%s.out%d", algo, i), 8))
 		}
@@ -219,7 +219,7 @@ func init() {
 	})
 	// timers never fire unless a harness drives them (no concurrency semantics)
 	reg("time.After", func(fr *frame, fn *ssa.Function, args []value) value {
-		fr.in.P.noteAssumption("virtual time: time.After/NewTimer channels are ready immediately (the requested duration is observable only through stubs)")
+		fr.in.noteAssumption("virtual time: time.After/NewTimer channels are ready immediately (the requested duration is observable only through stubs)")
 		return &hchan{buf: []value{fr.in.zero(fn.Signature.Results().At(0).Type().Underlying().(*types.Chan).Elem())}}
 	})
 	reg("time.NewTimer", func(fr *frame, fn *ssa.Function, args []value) value {
@@ -227,7 +227,7 @@ func init() {
 		tt := deref(fn.Signature.Results().At(0).Type())
 		p := new(value)
 		st := in.zero(tt).(structure)
-		fr.in.P.noteAssumption("virtual time: time.After/NewTimer channels are ready immediately (the requested duration is observable only through stubs)")
+		fr.in.noteAssumption("virtual time: time.After/NewTimer channels are ready immediately (the requested duration is observable only through stubs)")
 		ct := under(tt).(*types.Struct).Field(fieldIndex(tt, "C")).Type().Underlying().(*types.Chan).Elem()
 		st[fieldIndex(tt, "C")] = &hchan{buf: []value{fr.in.zero(ct)}}
 		*p = st
@@ -257,7 +257,7 @@ func (in *Interp) readAllFrom(fr *frame, r value) value {
 
 func init() {
 	reg("encoding/json.Marshal", func(fr *frame, fn *ssa.Function, args []value) value {
-		fr.in.P.noteModelName("encoding/json = codec tokens: Marshal(x) = tok(x), Unmarshal(tok(x)) = x, any other body is a syntax error")
+		fr.in.noteModelName("encoding/json = codec tokens: Marshal(x) = tok(x), Unmarshal(tok(x)) = x, any other body is a syntax error")
 		return tuple{fr.in.jsonToken(args[0]), iface{}}
 	})
 	reg("encoding/json.MarshalIndent", func(fr *frame, fn *ssa.Function, args []value) value {
@@ -295,7 +295,7 @@ func init() {
 	})
 	reg("time.now", func(fr *frame, fn *ssa.Function, args []value) value {
 		in := fr.in
-		in.P.noteAssumption("unstubbed wall-clock reads (time.Now) return the constant instant 2023-11-14T22:13:20Z")
+		in.noteAssumption("unstubbed wall-clock reads (time.Now) return the constant instant 2023-11-14T22:13:20Z")
 		in.timeSeq++
 		return tuple{in.ts.BV(64, 1700000000), in.ts.BV(32, 0), in.ts.BV(64, uint64(2000+in.timeSeq))}
 	})
@@ -333,7 +333,7 @@ func init() {
 	// connection machinery of net/http are outside the model.
 	reg("golang.org/x/net/context/ctxhttp.Do", func(fr *frame, fn *ssa.Function, args []value) value {
 		in := fr.in
-		in.P.noteModelName("ctxhttp.Do(ctx, client, req) = client.Transport.RoundTrip(req), then ctx.Err() if the round trip failed and the context is done")
+		in.noteModelName("ctxhttp.Do(ctx, client, req) = client.Transport.RoundTrip(req), then ctx.Err() if the round trip failed and the context is done")
 		ctx := args[0].(iface)
 		cp, _ := args[1].(*value)
 		if cp == nil {
@@ -367,7 +367,7 @@ func init() {
 		return func(fr *frame, fn *ssa.Function, args []value) value {
 			in := fr.in
 			n := args[len(args)-1].(*Term)
-			in.P.noteModelName("math/rand.Intn/Int63n = arbitrary value in [0, n)")
+			in.noteModelName("math/rand.Intn/Int63n = arbitrary value in [0, n)")
 			v := in.fresh("rand", w)
 			in.ctx.AddPC(in.ts.Cmp(OpUlt, v, n))
 			return v
@@ -385,7 +385,7 @@ func init() {
 func init() {
 	// the local time zone is UTC and no zone database is available (no file system)
 	reg("time.initLocal", func(fr *frame, fn *ssa.Function, args []value) value {
-		fr.in.P.noteAssumption("the local time zone is UTC; no time zone database is consulted")
+		fr.in.noteAssumption("the local time zone is UTC; no time zone database is consulted")
 		return nil
 	})
 	reg("time.loadLocation", func(fr *frame, fn *ssa.Function, args []value) value {
